@@ -15,7 +15,10 @@ Numerals == {
   Nm(TRUE, <<1,2,5>>, -1, <<45,49,50,46,53>>), Nm(FALSE, <<5>>, -1, <<46,53>>),
   Nm(FALSE, <<9,0,0,7,1,9,9,2,5,4,7,4,0,9,9,3>>, 0, <<57,48,48,55,49,57,57,50,53,52,55,52,48,57,57,51>>),
   Nm(FALSE, Digits38, 0, [i \in 1..38 |-> 48 + Digits38[i]]),
-  Nm(FALSE, <<1>>, -130, <<49,69,45,49,51,48>>), Nm(FALSE, <<9,9>>, 124, <<57,46,57,69,43,49,50,53>>) }
+  Nm(FALSE, <<1>>, -130, <<49,69,45,49,51,48>>), Nm(FALSE, <<9,9>>, 124, <<57,46,57,69,43,49,50,53>>),
+  \* a mantissa with a decimal point in front of an exponent that ends in zero; a leading plus sign
+  Nm(FALSE, <<1,5>>, 9, <<49,46,53,101,49,48>>), Nm(FALSE, <<2,5,0>>, 18, <<50,46,53,48,69,43,50,48>>), Nm(FALSE, <<1,0>>, -1, <<49,46,48,101,48>>),
+  Nm(FALSE, <<7>>, 0, <<43,55>>) }
 Scalars == { Str(<<>>), Str(<<97>>), Str(<<97, 46, 98, 32, 34, 195, 169>>), Bin(<<>>), Bin(<<0, 255, 10>>), Bool(TRUE), Bool(FALSE), NullV } \cup Numerals
 Sets == { Mk("SS", <<<<97>>>>), Mk("SS", <<<<98>>, <<>>, <<97>>>>), Mk("NS", <<Num(1).n>>), Mk("NS", <<Num(2).n, [neg |-> TRUE, d |-> <<1,5>>, e |-> -1], Num(10).n>>),
           Mk("BS", <<<<1>>>>), Mk("BS", <<<<2>>, <<>>, <<1, 0>>>>),
